@@ -550,7 +550,15 @@ static void derive_cfg(vs_config_t* c, uint64_t base_seed, int i, uint64_t base_
       c->stall_any = any;
       c->stall_at = 1 + (h >> 36) % (any ? base_points_t[t] : base_watch_t[t]);
       c->stall_len = lens[(h >> 24) % 3];
-      snprintf(sname, sn, any ? "stallany_p%d" : "stall_p%d", c->p_log2);
+      if (nc > 1 && ((h >> 34) & 1)) {
+        // hold a second thread as well
+        int t2 = cand[((h >> 40) % (uint64_t)(nc - 1) + 1 + (uint64_t)((h >> 20) % (uint64_t)nc)) % (uint64_t)nc];
+        if (t2 != t) {
+          c->stall_thread2 = t2 + 1;
+          c->stall_at2 = 1 + (h >> 44) % (any ? base_points_t[t2] : base_watch_t[t2]);
+        }
+      }
+      snprintf(sname, sn, "%s%s_p%d", any ? "stallany" : "stall", c->stall_thread2 ? "2" : "", c->p_log2);
       if (c->tso) strncat(sname, "+tso", sn - strlen(sname) - 1);
       return;
     }
